@@ -11,152 +11,195 @@ import re
 from .flat import akey
 
 # ------------------------------------------------------------------ regex terms
-EMPTY = ("0",)
-EPS = ("e",)
+# Hash-consed terms: every distinct term exists once, so equality is identity and all memo
+# tables are keyed by object.  Normal form: alternatives flattened, deduplicated and sorted
+# (ACI), concatenation right-nested, no EMPTY inside anything, star(star x) = star x.
+
+
+class Term:
+    __slots__ = ("k", "a", "b", "id", "null", "dcache", "fst")
+
+    def __repr__(self):
+        if self.k == "0":
+            return "0"
+        if self.k == "e":
+            return "e"
+        if self.k == "s":
+            return str(self.a)
+        if self.k == "cat":
+            return "(%r %r)" % (self.a, self.b)
+        if self.k == "alt":
+            return "(" + "|".join(repr(x) for x in self.a) + ")"
+        return "%r*" % (self.a,)
+
+
+_INTERN = {}
+
+
+class TooComplex(Exception):
+    pass
+
+
+MAX_TERMS = [2_000_000]
+
+
+def _mk(k, a=None, b=None):
+    if k == "alt":
+        key = (k, tuple(x.id for x in a))
+    else:
+        key = (k, a.id if isinstance(a, Term) else a, b.id if isinstance(b, Term) else b)
+    t = _INTERN.get(key)
+    if t is None:
+        t = Term()
+        t.k, t.a, t.b = k, a, b
+        t.id = len(_INTERN)
+        t.dcache = {}
+        t.fst = None
+        if k in ("e", "star"):
+            t.null = True
+        elif k in ("0", "s"):
+            t.null = False
+        elif k == "cat":
+            t.null = a.null and b.null
+        else:
+            t.null = any(x.null for x in a)
+        _INTERN[key] = t
+    return t
+
+
+EMPTY = _mk("0")
+EPS = _mk("e")
+RESET_HOOKS = []
+
+
+def maybe_reset(threshold=400_000):
+    """Bound the memory of long runs: drop all interned terms (except the two constants) and
+    every cache of objects that refer to terms.  Only called between cases."""
+    if len(_INTERN) <= threshold:
+        return False
+    keep = {k: v for k, v in _INTERN.items() if v is EMPTY or v is EPS}
+    _INTERN.clear()
+    _INTERN.update(keep)
+    for h in RESET_HOOKS:
+        h()
+    return True
 
 
 def sym(t):
-    return ("s", t)
+    return _mk("s", t)
 
 
 def cat(a, b):
-    if a == EMPTY or b == EMPTY:
+    if a is EMPTY or b is EMPTY:
         return EMPTY
-    if a == EPS:
+    if a is EPS:
         return b
-    if b == EPS:
+    if b is EPS:
         return a
-    if a[0] == "cat":
-        return cat(a[1], cat(a[2], b))
-    return ("cat", a, b)
+    if a.k == "cat":
+        return cat(a.a, cat(a.b, b))
+    return _mk("cat", a, b)
 
 
 def alt(*xs):
-    s = set()
+    s = {}
     for x in xs:
-        if x == EMPTY:
+        if x is EMPTY:
             continue
-        if x[0] == "alt":
-            s.update(x[1])
+        if x.k == "alt":
+            for y in x.a:
+                s[y.id] = y
         else:
-            s.add(x)
+            s[x.id] = x
     if not s:
         return EMPTY
     if len(s) == 1:
-        return next(iter(s))
-    return ("alt", tuple(sorted(s, key=repr)))
+        return next(iter(s.values()))
+    return _mk("alt", tuple(s[i] for i in sorted(s)))
 
 
 def star(a):
-    if a == EMPTY or a == EPS:
+    if a is EMPTY or a is EPS:
         return EPS
-    if a[0] == "star":
+    if a.k == "star":
         return a
-    return ("star", a)
-
-
-_null_cache = {}
+    return _mk("star", a)
 
 
 def nullable(r):
-    k = r[0]
-    if k == "e" or k == "star":
-        return True
-    if k == "0" or k == "s":
-        return False
-    v = _null_cache.get(r)
-    if v is None:
-        if k == "cat":
-            v = nullable(r[1]) and nullable(r[2])
-        else:
-            v = any(nullable(x) for x in r[1])
-        _null_cache[r] = v
-    return v
-
-
-_deriv_cache = {}
+    return r.null
 
 
 def deriv(r, t):
-    key = (r, t)
-    v = _deriv_cache.get(key)
+    v = r.dcache.get(t)
     if v is not None:
         return v
-    k = r[0]
+    k = r.k
     if k == "0" or k == "e":
         v = EMPTY
     elif k == "s":
-        v = EPS if r[1] == t else EMPTY
+        v = EPS if r.a == t else EMPTY
     elif k == "cat":
-        v = cat(deriv(r[1], t), r[2])
-        if nullable(r[1]):
-            v = alt(v, deriv(r[2], t))
+        v = cat(deriv(r.a, t), r.b)
+        if r.a.null:
+            v = alt(v, deriv(r.b, t))
     elif k == "alt":
-        v = alt(*[deriv(x, t) for x in r[1]])
+        v = alt(*[deriv(x, t) for x in r.a])
     else:
-        v = cat(deriv(r[1], t), r)
-    _deriv_cache[key] = v
+        v = cat(deriv(r.a, t), r)
+    r.dcache[t] = v
     return v
-
-
-_first_cache = {}
 
 
 def first(r):
     """Symbols t with a non-empty derivative."""
-    v = _first_cache.get(r)
+    v = r.fst
     if v is None:
-        v = frozenset(_symbols_first(r))
-        _first_cache[r] = v
+        k = r.k
+        if k == "s":
+            v = frozenset([r.a])
+        elif k == "cat":
+            v = first(r.a) | first(r.b) if r.a.null else first(r.a)
+        elif k == "alt":
+            v = frozenset().union(*[first(x) for x in r.a])
+        elif k == "star":
+            v = first(r.a)
+        else:
+            v = frozenset()
+        r.fst = v
     return v
-
-
-def _symbols_first(r):
-    k = r[0]
-    if k == "s":
-        return {r[1]}
-    if k == "cat":
-        s = set(_symbols_first(r[1]))
-        if nullable(r[1]):
-            s |= _symbols_first(r[2])
-        return s
-    if k == "alt":
-        s = set()
-        for x in r[1]:
-            s |= _symbols_first(x)
-        return s
-    if k == "star":
-        return _symbols_first(r[1])
-    return set()
 
 
 def matches(r, seq):
     for t in seq:
         r = deriv(r, t)
-        if r == EMPTY:
+        if r is EMPTY:
             return False
-    return nullable(r)
+    return r.null
 
 
 def run(r, seq):
     """Derivative after seq (EMPTY if the prefix is not extendable)."""
     for t in seq:
         r = deriv(r, t)
-        if r == EMPTY:
+        if r is EMPTY:
             return EMPTY
     return r
 
 
-def reachable(r, alphabet=None):
-    """All derivative states reachable from r (excluding EMPTY)."""
+def reachable(r, limit=3000):
+    """All derivative states reachable from r (excluding EMPTY).  Raises TooComplex beyond
+    `limit` states (the caller skips and counts such an expression)."""
     seen = {r}
     work = [r]
     while work:
         x = work.pop()
         for t in sorted(first(x)):
             y = deriv(x, t)
-            if y != EMPTY and y not in seen:
+            if y is not EMPTY and y not in seen:
                 seen.add(y)
+                if len(seen) > limit:
+                    raise TooComplex("more than %d derivative states" % limit)
                 work.append(y)
     return seen
 
